@@ -279,7 +279,7 @@ pub fn run(report: &Report) -> i32 {
         "c07",
         "proptest-generated handshakes with server flights of 0..16 kB (certificate-chain stand-in) or rustls, lost/duplicated client flights, Retry on/off, delayed accept, plus harness-crafted Initials of 1..1500 bytes from spoofed addresses (valid client hello or PING) and garbage datagrams of 1..1500 bytes; oracles: per datagram emitted to an unvalidated address sent_before + 1 <= 3 x received_before, stateless reset strictly smaller than its trigger and at most one per min_reset_interval, sub-1200 Initials ignored without state; non-trivial = a server connection reached the 3x limit",
         arb_amp,
-        report.cases(8000, 400_000),
+        report.cases(40_000, 1_500_000),
         case,
     );
     report.finish("generated-input search (proptest) with a link-side amplification ledger")
